@@ -196,6 +196,6 @@ fn thin_ptrs<H: Copy + Pl, T: Copy + Pl, const N: usize>(hv: H, vals: [T; N]) {
     forget(t);
 }
 h!(q_thin_ptrs_u8_u16_n2, 5, thin_ptrs::<u8, u16, 2>(kani::any(), kani::any()));
-h!(r0_thin_ptrs_unit_s5a16_n1, 5, thin_ptrs::<(), S5a16, 1>((), [S5a16(bytes())]));
+h!(q_thin_ptrs_unit_s5a16_n1, 5, thin_ptrs::<(), S5a16, 1>((), [S5a16(bytes())]));
 h!(r1_thin_ptrs_s33a32_u8_n3, 5, thin_ptrs::<S33a32, u8, 3>(S33a32(bytes()), kani::any()));
 h!(r2_thin_ptrs_u64_u64_n0, 5, thin_ptrs::<u64, u64, 0>(kani::any(), []));
